@@ -5546,7 +5546,7 @@ class CodegenCtx:
             if chr(i) in ["\\", '"']:
                 result += "\\" + chr(i)
             elif not (32 <= i < 127):
-                result += "\\x{:02x}".format(i)
+                result += "\\{:03o}".format(i)  # octal: unlike \x, never swallows a following hex digit
             else:
                 result += chr(i)
         return result
